@@ -412,6 +412,8 @@ def oracle_c08(h: History):
         init = r.get("batch_resolved") or {}
         states = sorted(init)
         n = len(next(iter(init.values()))) if init else 0
+        if n > 400:
+            continue  # large panels belong to C04; membership histories use small batches
         cols = sorted(c for c in fd["columns"])
         per = [frame_rows(fd, t)[0] for t in range(T)]
         for i in range(n):
@@ -469,8 +471,11 @@ def oracle_c04_exact(h: History):
         for seed, g in by_seed.items():
             for r in g[1:]:
                 if r.get("digest") != g[0].get("digest"):
-                    d = compare_frames(g[0]["result"], r["result"]) or "frames differ below comparison tolerance (digest mismatch)"
-                    out.append(_viol("C04", "same-seed-differs", r, f"seed {seed}: op {r['id']} vs op {g[0]['id']}: {d}", plan))
+                    # float columns: tolerance of DESIGN 3.6 (different handles / jit flags differ by ulps in `value`);
+                    # integer columns - in particular every stochastic state - exactly
+                    d = compare_frames(g[0]["result"], r["result"])
+                    if d:
+                        out.append(_viol("C04", "same-seed-differs", r, f"seed {seed}: op {r['id']} vs op {g[0]['id']}: {d}", plan))
         # different seeds -> identical period 0 (exact)
         seeds = sorted(by_seed, key=lambda s: (s is None, s))
         if len(seeds) > 1:
@@ -482,7 +487,7 @@ def oracle_c04_exact(h: History):
                 for c in sorted(b0):
                     if c not in r0:
                         continue
-                    d = compare_arrays(b0[c], r0[c], f"period-0 column {c}", rtol=0, atol=0)
+                    d = compare_arrays(b0[c], r0[c], f"period-0 column {c}")
                     if d:
                         out.append(_viol("C04", "seed-changes-period-0", r, f"seeds {seeds[0]} vs {s} (ops {b['id']}, {r['id']}): {d}", plan))
                         break
